@@ -942,3 +942,22 @@ def introduce_locals(sources: SourceSet) -> SourceSet:
 
 
 VARIANTS.update({"if-to-ternary": if_to_ternary, "introduce-locals": introduce_locals})
+
+
+def _compose(*names):
+    def f(sources: SourceSet) -> SourceSet:
+        cur = sources
+        for n in names:
+            cur = VARIANTS[n](cur)
+        return cur
+
+    return f
+
+
+VARIANTS.update(
+    {
+        "combo-structure": _compose("extract-arms", "guard-clauses", "rename-locals", "keyword-calls"),
+        "combo-expressions": _compose("introduce-locals", "compare-flip", "de-morgan", "captures-to-aliases", "split-walrus"),
+        "combo-style": _compose("match-to-isinstance", "else-after-return", "comprehension-to-loop", "keyword-constructors", "optional-annotations"),
+    }
+)
